@@ -5,7 +5,7 @@ from ..tcp import make_sender, MSS
 from onl.packet import Packet
 
 ID = 'C17'
-SHRINK_KEEP = ('rtt_est', 'cwnd', 'ssthresh', 'pace')
+SHRINK_KEEP = ('rtt_est', 'cwnd', 'ssthresh', 'pace', 'msg', 'tail')
 TIERS = {'quick': {'runs': 8000, 'budget_s': 30}, 'thorough': {'runs': 400000, 'budget_s': 600}}
 RULE = ('a real TCPPacketGenerator (Reno from random initial cwnd/ssthresh, CUBIC from its defaults) whose peer is a harness '
         'stub feeding scripted ACK histories: new ACKs advancing 1..m segments with arbitrary RTT samples, runs of 1..6 '
@@ -17,7 +17,7 @@ STUBS = ['the ACK-feeding peer (records segments, builds ACK packets)', 'the tex
 ASSUMPTIONS = ['ssthresh after a retransmission timeout is not specified by the statement: the reference adopts the observed '
                'value there', 'CUBIC congestion avoidance: only the consequences are checked (per new ACK cwnd grows by 0 or '
                '1 MSS, never shrinks)', 'scripted new ACKs never acknowledge unsent data; duplicates repeat the current mark']
-PROBES = ['paced_flow', 'one_or_two_dups_then_new', 'ge4_dups', 'ack_advancing_several', 'timeout_during_fast_recovery', 'timeout',
+PROBES = ['buffered_not_multiple_of_mss', 'paced_flow', 'one_or_two_dups_then_new', 'ge4_dups', 'ack_advancing_several', 'timeout_during_fast_recovery', 'timeout',
           'fast_retransmit', 'congestion_avoidance', 'slow_start', 'cc_cubic', 'dups_with_nothing_outstanding']
 
 
@@ -33,7 +33,9 @@ def gen(rng, tier):
         else:
             ev.append(['wait', rng.choice([0.5, 2.0, 5.0, 20.0])])
     return {'cc': cc, 'segments': rng.choice([400, 400, 3, 8]),
-            'pace': rng.choice([None, None, 0.5, 1.0, 2.0]),   # application-limited (paced) flows 'rtt_est': rng.choice([0.05, 0.2, 1.0, 3.0]),
+            'pace': rng.choice([None, None, 0.5, 1.0, 2.0]),   # application-limited (paced) flows
+            'msg': rng.choice([MSS, MSS, 200, 700, 1000]),     # paced flows: bytes handed over per arrival
+            'tail': rng.choice([0, 0, 0, 200, 464]),           # flow size need not be a multiple of the MSS 'rtt_est': rng.choice([0.05, 0.2, 1.0, 3.0]),
             'cwnd': rng.choice([MSS, 2 * MSS, 4 * MSS, 10 * MSS, 20 * MSS]),
             'ssthresh': rng.choice([65535, 1024, 2048, 4096, 8192]), 'events': ev}
 
@@ -115,6 +117,8 @@ def check(w, case):
     cubic = case.get('cc') == 'cubic'
     if case.get('pace'):
         stats['paced_flow'] = 1
+    if case.get('tail') or (case.get('pace') and case.get('msg', MSS) % MSS):
+        stats['buffered_not_multiple_of_mss'] = 1
     if cubic:
         stats['cc_cubic'] = 1
         cwnd, ssth = 512, 65535
